@@ -49,6 +49,7 @@ def scenarios(ctx):
                 out.append({"id": "frac-%d" % k, "cfg": {"tick_ms": 100, "rates": rates, "cap": 8, "level": "http", "extract": "custom",
                                                          "qualified": True}, "steps": steps})
                 k += 1
+    out += RC.byte_quota_scenarios("c03", {})
     for s in out:
         if s["cfg"].get("extract") in ("header", "ip"):
             for st in s["steps"]:
